@@ -96,7 +96,8 @@ def clause_prune_after_push(prog, rep):
 def clause_rollback_releases(prog, rep):
     n = 0
     for f in mgr_fns(prog):
-        sp = [c for c in f.live_calls() if c.name == "split_off" and last_seg(c.self_adt) == "VecDeque"]
+        sp = [c for c in f.live_calls() if c.name in ("split_off", "truncate", "drain") and last_seg(c.self_adt) == "VecDeque"]
+        in_place = lambda x: last_seg(x.self_adt) == "VecDeque" and x.name in ("iter", "iter_mut", "range", "range_mut", "get", "index")
         rb = [c for c in f.live_calls() if K.is_storage_trait_call(c, "rollback_group_to_snapshot")]
         if not rb:
             continue
@@ -105,7 +106,10 @@ def clause_rollback_releases(prog, rep):
         ok = False
         for rl in rels:
             og = A.origins(prog, f, rl.args[-1]["p"][0], scope=None, max_frames=0) if "p" in rl.args[-1] else None
-            if og and og.has_call(lambda x: x.name in ("split_off", "drain", "truncate", "pop_back")):
+            if og and og.has_call(lambda x: x.name in ("split_off", "drain", "pop_back")):
+                ok = True
+            # or: released while still in the queue, then cut off (for snap in queue.iter().skip(i + 1) { release }; queue.truncate(i))
+            if og and og.has_call(in_place) and any(c.bb in f.reachable_from(rl.bb) for c in sp):
                 ok = True
         # copy provenance of the released name: a field of the element iterated out of the split-off suffix
         for rl in rels:
@@ -113,13 +117,15 @@ def clause_rollback_releases(prog, rep):
                 continue
             pr = A.producers(prog, f, rl.args[-1]["p"][0], scope=None, max_frames=0)
             names = sorted(set(x.name for x in pr["calls"]))
-            elem = bool(pr["calls"]) and all(x.name == "next" for x in pr["calls"]) and "snapshot_name" in pr["fields"]
+            elem = bool(pr["calls"]) and all(x.name in ("next", "get", "index") for x in pr["calls"]) and "snapshot_name" in pr["fields"]
             src_ok = False
             for x in pr["calls"]:
                 if x.name == "next" and x.args and "p" in x.args[0]:
                     og2 = A.origins(prog, f, x.args[0]["p"][0], scope=None, max_frames=0)
-                    if og2.has_call(lambda y: y.name in ("split_off", "drain")):
+                    if og2.has_call(lambda y: y.name in ("split_off", "drain")) or og2.has_call(in_place):
                         src_ok = True
+                if x.name in ("get", "index") and last_seg(x.self_adt) == "VecDeque":
+                    src_ok = True
             rep.check(elem and src_ok, "rollback-discards-suffix", f.label() + "/released-name",
                       "each release names the split-off element's own snapshot_name",
                       "the name passed to release_group_snapshot is produced by %s, not by the element iterated out of the split-off suffix: the "
